@@ -38,7 +38,7 @@ def bodies(rng, tier):
              "(f (- n 1) (progn (setq g (+ g 1)) acc))", "(f (1- n) n)"]
     for core in cores:
         for d in range(0, 4):
-            for _ in range(2 if tier == "quick" else 12):
+            for _ in range(4 if tier == "quick" else 12):
                 guard = "(if (<= n 0) acc %s)" % wrap_tail(rng, core, d)
                 out.append(("(n acc)", guard, "(f %d 0)"))
     # non-tail and mixed positions
